@@ -113,6 +113,9 @@ class _FuseMinMaxBase(RewriteRuleClassBase, abc.ABC):
                 value = ir.convenience.get_const_tensor(input_).numpy()
                 if not self._is_scalar(value):
                     return check_result.fail(f"{input_.name} is not a scalar.")
+                # Min/Max propagate a NaN operand, Clip ignores a NaN bound.
+                if np.isnan(value.astype(np.float64)).any():
+                    return check_result.fail(f"{input_.name} is NaN.")
                 # Min/Max broadcast: a size-1 bound of higher rank than X raises the rank of
                 # the result, whereas Clip (0-d bounds) keeps the shape of X.
                 if value.ndim > 0 and (x_rank is None or value.ndim > x_rank):
